@@ -396,7 +396,8 @@ class Gen:
         self.report = dict(unit=unit, functions=[], items=[], rules_applied={}, dropped=[])
         self.ledger = []    # obligations: dict(fn, label, kind, props, text)
         self.specs = {}     # contracts by function name (used by tools/audit_stubs.py)
-        self.default_stubs = {}
+        # R4 for every function (a per-function `//@ stub` overrides): str methods Verus has no specification for
+        self.default_stubs = {'starts_with': 'crate::v_starts_with', 'ends_with': 'crate::v_ends_with', 'to_lowercase': 'crate::v_to_lowercase'}
 
     def src(self, rel):
         if rel not in self.files:
